@@ -47,6 +47,8 @@ package goja
 //@ func (*generatorObject).delegate
 //@   props C09
 //@   requires g != nil && g.gen.vm != nil && g.state != genStateExecuting
+//@   site nextThrow#1 vars g *generatorObject
+//@   site nextThrow#1 requires g.delegated == nil [no-delegate-when-GetIterator-failed]
 //@   ensures g.state != genStateExecuting [settled]
 //@   ensures_abrupt g.state != genStateExecuting [settled-on-panic]
 //@   ensures @ggMarkersKept [markers-kept]
@@ -62,6 +64,8 @@ package goja
 //@   requires g != nil && g.gen.vm != nil
 //@   site try#1 vars g *generatorObject
 //@   site try#1 requires g.state == genStateExecuting [delegated-call-runs-in-the-executing-state]
+//@   site nextThrow#1 vars g *generatorObject
+//@   site nextThrow#1 requires g.delegated == nil [delegate-dropped-before-its-exception-is-thrown-into-the-body]
 //@   ensures done ==> g.state == old(g.state) [state-restored-when-the-delegate-answered]
 //@   ensures !done ==> g.state == old(g.state) || g.state != genStateExecuting [settled-or-restored]
 //@   ensures @ggMarkersKept [markers-kept]
